@@ -39,6 +39,18 @@ func runC14(r *R) {
 		l.JSONMode = map[string]int{"json-lines": 0, "json-pretty": 1, "json-array": 2}[kind]
 	}
 	items := genFile(w, format, 6)
+	emptyFile := w.Draw(25) == 0
+	if emptyFile {
+		// an ammo file without a single entry: both paths must end the same way here too
+		var keep []absItem
+		for _, it := range items {
+			if it.Req == nil && w.Draw(2) == 0 {
+				keep = append(keep, it) // (in-file header lines may stay)
+			}
+		}
+		items = keep
+		r.Note("file-without-entries")
+	}
 	tagAlpha := []string{"a", "b", "c", "", "two words"}
 	var reqs []*absReq
 	for _, it := range items {
@@ -63,7 +75,11 @@ func runC14(r *R) {
 		}
 	case 3:
 		chosenKind = "one-present"
-		chosen = []string{reqs[w.Draw(n)].Tag}
+		if n > 0 {
+			chosen = []string{reqs[w.Draw(n)].Tag}
+		} else {
+			chosen = []string{"a"}
+		}
 		if chosen[0] == "" {
 			chosen = []string{"a"}
 		}
